@@ -457,7 +457,22 @@ def classify_silent(o):
     return None
 
 
+def deductive(ctx):
+    """engine D: Job._check_for_hash_changes returns normally only if Task._hash_changes() is empty
+    and raises RuntimeError only for a detected change; Job.checksum is computed once and then kept"""
+    from contracts import hash_changes as HC
+    from pyvc.verify import verify, summarize
+
+    for c in (HC.check_contract(), HC.checksum_contract()):
+        summarize(ctx, verify(ctx, c))
+
+
 def run(ctx):
+    deductive(ctx)
+    _run_bounded(ctx)
+
+
+def _run_bounded(ctx):
     from vf.core import CheckerError
 
     ctx.level = "other"
